@@ -32,19 +32,24 @@ def check_case(rep, case, name):
         if not (abs(e0) < 1e12): continue
         if not relclose(u, e0, 1e-8): rep.dev(name, dict(case, rs=[x]), 'energy(%r)=%r' % (x, u), e0); return
         if hasattr(f, 'deriv'):
-            d, e1 = f.deriv(x), float(f1(x))
+            try: d, e1 = f.deriv(x), float(f1(x))
+            except Exception as e:
+                # the energy is defined here (above) but the offered derivative cannot be evaluated
+                rep.dev(name, dict(case, rs=[x]), 'deriv(%r) raises %r' % (x, e), float(f1(x))); return
             # a component without analytic derivative is differentiated numerically (h = 1e-6): tolerance covers that
             if not relclose(d, e1, 2e-5): rep.dev(name, dict(case, rs=[x]), 'deriv(%r)=%r' % (x, d), e1); return
             fo = Potential('A', 'B', f).force(x)
             if not relclose(fo, -e1, 2e-5): rep.dev(name, dict(case, rs=[x]), 'force(%r)=%r' % (x, fo), -e1); return
         if hasattr(f, 'deriv2'):
-            d, e2 = f.deriv2(x), float(f2(x))
+            try: d, e2 = f.deriv2(x), float(f2(x))
+            except Exception as e:
+                rep.dev(name, dict(case, rs=[x]), 'deriv2(%r) raises %r' % (x, e), float(f2(x))); return
             if not relclose(d, e2, 5e-4): rep.dev(name, dict(case, rs=[x]), 'deriv2(%r)=%r' % (x, d), e2); return
         rep.ok(3)
 
 def gen_case(rng):
     t = gen(rng, rng.randint(0, 3))
-    return dict(route=rng.choice(['api', 'config']), tree=t, rs=[round(rng.uniform(0.6, 6.0), 3) for _ in range(4)] + [0.25, 1.0, 2.0])
+    return dict(route=rng.choice(['api', 'config']), tree=t, rs=[round(rng.uniform(0.6, 6.0), 3) for _ in range(4)] + [0.25, 1.0, 2.0, round(rng.uniform(6.0, 30.0), 2)])
 
 if __name__ == '__main__':
     pl = payload(); rep = Report('C07')
@@ -52,7 +57,7 @@ if __name__ == '__main__':
     else:
         rng = random.Random(pl.get('seed', 0))
         for name in sorted(LEAVES):      # every built-in form once
-            c = dict(route='api', tree=('leaf', name, [rnd(p) for p in LEAVES[name][0](rng)]), rs=[0.0, 0.7, 1.3, 2.9, 5.5]); rep.case('leaf', c); check_case(rep, c, 'leaf-' + name)
+            c = dict(route='api', tree=('leaf', name, [rnd(p) for p in LEAVES[name][0](rng)]), rs=[0.0, 0.7, 1.3, 2.9, 5.5, 12.0, 21.0, 29.5]); rep.case('leaf', c); check_case(rep, c, 'leaf-' + name)
         for i in range(pl.get('n', 30)):
             c = gen_case(rng); rep.case(c['route'], c); check_case(rep, c, 'seeded-%d' % i)
     rep.finish()
